@@ -448,6 +448,8 @@ type c10H struct {
 	t       *testing.T
 	r       *zv.Run
 	gc, gh  *zv.Group
+	gconc   *zv.Group
+	gserve  *zv.Group
 	squares []*c10Square
 	others  []*c10Square
 	bs      *Blockstore // serves the committed squares
@@ -1212,11 +1214,27 @@ func TestVerifC10(t *testing.T) {
 	}
 	h.bs, h.obs = &Blockstore{Getter: good}, &Blockstore{Getter: bad}
 
+	h.gconc = r.Group("conc", c10ConcHeader, "ccase", "conc_mismatches")
+	h.gserve = r.Group("serve", c10ServeHeader, "scase", "serve_mismatches")
+
 	var rp struct {
 		Hasher *c10HCase `json:"hasher"`
+		Sched  *c10Sched     `json:"sched"`
+		Serve  *c10ServeCase `json:"serve"`
 	}
-	if r.ReplayInput(&rp) && rp.Hasher != nil {
-		h.runHasherCase(*rp.Hasher)
+	if r.ReplayInput(&rp) {
+		switch {
+		case rp.Hasher != nil:
+			h.runHasherCase(*rp.Hasher)
+		case rp.Sched != nil:
+			h.runSched(rp.Sched, nil, 0)
+		case rp.Serve != nil:
+			for _, rep := range h.buildReps() {
+				if rep.name == rp.Serve.Rep {
+					h.serveOne(rep, rp.Serve.Sq, rp.Serve.ID)
+				}
+			}
+		}
 		return
 	}
 
@@ -1289,4 +1307,6 @@ func TestVerifC10(t *testing.T) {
 			h.fetchScenario("garbage-race", sqi, id, false, true)
 		}
 	}
+	h.concurrent(rng.Fork(7))
+	h.serving(rng.Fork(8))
 }
